@@ -89,6 +89,17 @@ def gen_case(rng, tier):
             regs.append({'form': 'file', 'name': rng.choice(names)})
         else:
             regs.append({'form': 'dir'})
+    nested = None
+    if rng.random() < 0.15:
+        # the SAME log names in several sibling directories, reached through ONE glob with a
+        # wild card in the directory part: each directory's log has its own depth budget
+        stem = rng.choice(STEMS)
+        nn = [f'{stem}.log'] if rng.random() < 0.7 else []
+        for n in rng.sample(range(1, 9), rng.choice([2, 3, 5])):
+            nn.append(f'{stem}.log.{n}' + ('.gz' if rng.random() < 0.5 else ''))
+        nested = {'dirs': ['h0', 'h1', 'h2', 'h3'][:rng.choice([2, 3, 4])], 'names': nn}
+        regs.append({'form': 'glob', 'pattern': rng.choice(['*/*', f'*/{stem}.log*', 'h?/*.log.*',
+                                                            f'h*/{stem}*'])})
     # which search object each registration uses: sometimes the SAME search is registered
     # through several (overlapping) paths
     if rng.random() < 0.35:
@@ -96,6 +107,7 @@ def gen_case(rng, tier):
     else:
         def_of = list(range(len(regs)))
     return {'names': names, 'dirs': dirs, 'regs': regs, 'def_of': def_of, 'links': links,
+            'nested': nested,
             'spell': rng.choice([None, None, None, '//', '/./']),
             'same_tag': rng.random() < 0.25,
             'depth': rng.choice([0, 1, 2, 3, 7, 7, 9]),
@@ -177,7 +189,14 @@ def run_impl(case):
         for n in case['dirs']:
             os.mkdir(os.path.join(d, n))
             with open(os.path.join(d, n, 'inner.log'), 'w') as f:
-                f.write('x\n')
+                f.write('x\nsecond\n')
+        if case.get('nested'):
+            for h in case['nested']['dirs']:
+                os.mkdir(os.path.join(d, h))
+                for n in case['nested']['names']:
+                    data = f"line of {h}/{n}\nsecond\n".encode()
+                    with open(os.path.join(d, h, n), 'wb') as f:
+                        f.write(gzip.compress(data) if n.endswith('.gz') else data)
         # the user may spell the directory non-canonically (// or /./): every registration
         # form must file a given file under the same key
         dsp = d if not case.get('spell') else tmp + case['spell'] + 'logs'
